@@ -485,9 +485,20 @@ pub fn monitor_lines(e: &Exec, nthreads: usize) -> Vec<String> {
     }
     let mut seg: HashMap<usize, Seg> = HashMap::new();
     let mut pending_rmw: HashMap<usize, RmwSite> = HashMap::new();
+    // the tree of slots (for the recursive teardown): which slot the block of a slot's owner is installed in
+    let mut installed_in: HashMap<usize, usize> = HashMap::new(); // block id -> slot
+    let mut slot_info: Vec<(usize, Option<usize>, usize)> = vec![]; // (slot, parent slot, index)
+    let mut last_alloc: HashMap<usize, usize> = HashMap::new(); // thread -> block id of its latest candidate
+    let mut pending_is_node: HashMap<usize, bool> = HashMap::new();
+    let mut tear: Vec<String> = vec![];
+    let slot_info_cell = std::cell::RefCell::new(&mut slot_info);
+    let installed_in_cell = std::cell::RefCell::new(&mut installed_in);
     let slot_id = |slots: &mut HashMap<(usize, usize), usize>, block_of: &HashMap<usize, usize>, node: usize, index: usize| -> usize {
         let b = *block_of.get(&node).unwrap_or(&usize::MAX);
         let n = slots.len();
+        if !slots.contains_key(&(b, index)) {
+            slot_info_cell.borrow_mut().push((n, installed_in_cell.borrow().get(&b).cloned(), index));
+        }
         *slots.entry((b, index)).or_insert(n)
     };
     let flush_read = |t: usize, seg: &mut HashMap<usize, Seg>, lines: &mut Vec<String>| {
@@ -534,11 +545,22 @@ pub fn monitor_lines(e: &Exec, nthreads: usize) -> Vec<String> {
                 Note::Alloc { ptr, count_cell } => {
                     if !*count_cell {
                         block_of.insert(*ptr, next_block);
+                        last_alloc.insert(t, next_block);
                         next_block += 1;
                     }
                 }
-                Note::Free { count_cell, .. } => {
+                Note::Free { count_cell, ptr } => {
                     if torn_by == Some(t) {
+                        if *count_cell {
+                            tear.push("fc".into());
+                            let info: Vec<String> = slot_info_cell.borrow().iter().map(|(s, p, i)| format!("{}:{}:{}", s, p.map(|p| p.to_string()).unwrap_or("r".into()), i)).collect();
+                            lines.push(format!("ev {} tear {} {}", t, if info.is_empty() { "-".to_string() } else { info.join(",") }, tear.join(",")));
+                        } else {
+                            match block_of.get(ptr).and_then(|b| installed_in_cell.borrow().get(b).cloned()) {
+                                Some(s) => tear.push(format!("f{}", s)),
+                                None => tear.push("fr".into()),
+                            }
+                        }
                         if *count_cell {
                             lines.push(format!("ev {} torn {} {}", t, last_now as i32, frees_in_teardown));
                             torn_by = None;
@@ -558,9 +580,16 @@ pub fn monitor_lines(e: &Exec, nthreads: usize) -> Vec<String> {
                     let sg = seg.entry(t).or_default();
                     sg.read_lock = false;
                     sg.pending_slot = Some(s);
+                    pending_is_node.insert(t, *is_node);
                     lines.push(format!("ev {} rdmiss {} {}", t, s, if *is_node { "n" } else { "t" }));
                 }
-                Note::Installed { .. } => {
+                Note::Installed { node, index } => {
+                    if pending_is_node.get(&t) == Some(&true) {
+                        let s = slot_id(&mut slots, &block_of, *node, *index);
+                        if let Some(b) = last_alloc.get(&t) {
+                            installed_in_cell.borrow_mut().insert(*b, s);
+                        }
+                    }
                     seg.entry(t).or_default().write_lock = false;
                     lines.push(format!("ev {} install", t));
                 }
@@ -575,6 +604,7 @@ pub fn monitor_lines(e: &Exec, nthreads: usize) -> Vec<String> {
                         Some(RmwSite::LoserNode) | Some(RmwSite::LoserToken) => lines.push(format!("ev {} add {}", t, now)),
                         Some(RmwSite::Drop) => {
                             if torn_by == Some(t) {
+                                tear.push("d".into());
                                 lines.push(format!("ev {} tdec", t));
                             } else {
                                 lines.push(format!("ev {} dec {}", t, now));
@@ -693,6 +723,9 @@ fn fixed_programs(what: &str) -> Vec<(Prog, bool)> {
             (vec![vec![n("lcn"), n("lc")], vec![n("lc"), n("fcn")]], false),
             (vec![vec![n("lcn"), n("lcn"), n("ps")], vec![n("fcn"), n("fcn")]], false),
             (vec![vec![n("lt"), n("pt")], vec![n("lcn"), n("fc"), n("ns")]], false),
+            // for the tree with one deduplicated sub-tree at two positions of equal offset: both copies are visited
+            (vec![vec![n("fcn"), n("fcn")], vec![Op::Child(1), n("fcn")]], false),
+            (vec![vec![n("fc"), n("ns")], vec![n("fcn"), n("fcn"), n("up"), n("ns"), n("fcn")]], false),
         ],
         "lifecycle" => vec![
             (vec![vec![n("fc")], vec![n("fc")]], true),
@@ -760,6 +793,12 @@ pub fn conc_trees() -> Vec<RefTree> {
             RefTree::Tok(10, "a".into()),
             RefTree::Node(1, vec![RefTree::Tok(11, "é".into()), RefTree::Node(2, vec![RefTree::Tok(10, "c".into())]), RefTree::Node(3, vec![RefTree::Tok(10, "dd".into())])]),
         ]),
+        // one (deduplicated) green sub-tree at two positions with the same offset: two positions, two identities
+        RefTree::Node(0, vec![
+            RefTree::Node(1, vec![RefTree::Node(2, vec![])]),
+            RefTree::Node(1, vec![RefTree::Node(2, vec![])]),
+            RefTree::Tok(10, "x".into()),
+        ]),
     ]
 }
 
@@ -780,6 +819,7 @@ pub fn run_conc(what: &str, seed: u64, tier: &str, outdir: &str) {
     let mut nontrivial: Vec<usize> = vec![];
     let trees = conc_trees();
     let mut programs = fixed_programs(what);
+    let n_fixed = programs.len();
     let n_random = if thorough { 60 } else { 10 };
     for _ in 0..n_random {
         programs.push(random_program(&mut rng, what));
@@ -792,7 +832,15 @@ pub fn run_conc(what: &str, seed: u64, tier: &str, outdir: &str) {
     let _ = std::fs::remove_file(format!("{}/fatal.json", outdir));
     for (pi, (prog, root_first)) in programs.iter().enumerate() {
         // the back-to-front programs of the traversal suite belong to the nested tree
-        let tree = if what == "traverse" && (8..12).contains(&pi) { &trees[3] } else { &trees[pi % trees.len()] };
+        let tree = if what == "traverse" && (8..12).contains(&pi) {
+            &trees[3]
+        } else if what == "traverse" && (12..14).contains(&pi) {
+            &trees[4]
+        } else if pi < n_fixed {
+            &trees[pi % 4]
+        } else {
+            &trees[pi % trees.len()]
+        };
         *crate::sched::FATAL.lock().unwrap() =
             Some((outdir.to_string(), format!("tree={} prog={} root_first={}", tree.dump(), show_prog(prog), root_first)));
         let mut handle = |e: Exec, mode: &str, ops: &mut Vec<String>, imp: &mut Vec<String>, oracle: &mut Vec<String>, case: &mut usize| {
@@ -908,55 +956,4 @@ pub fn run_conc(what: &str, seed: u64, tier: &str, outdir: &str) {
     let d = serde_json::json!({ "dist": dist, "cases": case, "nontrivial_cases": nontrivial,
         "debug_build": cfg!(debug_assertions), "lasso_build": cfg!(feature = "lasso") });
     std::fs::write(format!("{}/dist.json", outdir), d.to_string() + "\n").unwrap();
-}
-
-pub fn debug_random() {
-    quiet_panics();
-    let tree = &conc_trees()[0];
-    let prog: Prog = vec![vec![Op::Nav("fc")], vec![Op::Nav("fc")]];
-    for seed in 0..200u64 {
-        let mut r2 = Rng::new(seed);
-        let e = execute(tree, &prog, false, &mut |en, _| en[r2.below(en.len())]);
-        // find: a thread's reread between another thread's Lost and its Released
-        let mut holder: Option<usize> = None;
-        for (t, ev) in &e.trace {
-            match ev {
-                Ev::Note(Note::Lost { .. }) => holder = Some(*t),
-                Ev::Note(Note::Released { write: true, .. }) => if holder == Some(*t) { holder = None },
-                Ev::Note(Note::Acquired { write: false, .. }) => {
-                    if let Some(h) = holder {
-                        if h != *t {
-                            eprintln!("seed {}: thread {} read-locks while {} holds the write lock; steps {:?}", seed, t, h, e.steps);
-                            for (t, ev) in &e.trace {
-                                if !matches!(ev, Ev::Note(Note::Access { .. })) {
-                                    eprintln!("{} {:?}", if *t == MAIN { 9 } else { *t }, ev);
-                                }
-                            }
-                            return;
-                        }
-                    }
-                }
-                _ => {}
-            }
-        }
-    }
-    eprintln!("no overlap found");
-}
-
-pub fn debug_one() {
-    quiet_panics();
-    let tree = &conc_trees()[0];
-    let prog: Prog = vec![vec![Op::Nav("fc")], vec![Op::Nav("fc")]];
-    // schedule: both clone, both miss, t1 installs, t0 loses, then default
-    let sched = [0usize, 0, 1, 1, 0, 1, 1, 0, 0];
-    let mut i = 0;
-    let e = execute(tree, &prog, false, &mut |en, last| {
-        let c = if i < sched.len() && en.contains(&sched[i]) { sched[i] } else { default_choice(en, last) };
-        i += 1;
-        eprintln!("choose {} from {:?}", c, en);
-        c
-    });
-    for (t, ev) in &e.trace {
-        eprintln!("{} {:?}", if *t == MAIN { 9 } else { *t }, ev);
-    }
 }
